@@ -133,6 +133,11 @@ func pathsOverlap(a, b string) bool {
 		if isConstIdx(x) && isConstIdx(y) {
 			return false
 		}
+		if bx, by := strings.HasPrefix(x, "[@!"), strings.HasPrefix(y, "[@!"); bx != by {
+			if strings.Replace(x, "[@!", "[@", 1) == strings.Replace(y, "[@!", "[@", 1) {
+				return false // same offset, different iterations of a counting loop: different elements
+			}
+		}
 		if (strings.HasPrefix(x, "[blk:") && strings.HasPrefix(y, "[tail:") && x[5:] == y[6:]) ||
 			(strings.HasPrefix(y, "[blk:") && strings.HasPrefix(x, "[tail:") && y[5:] == x[6:]) {
 			return false // elements [0, n-n%B) processed by the kernel vs the tail [n-n%B, n)
@@ -270,6 +275,7 @@ func symPhi(elem string) string {
 		return ""
 	}
 	s := elem[2 : len(elem)-1]
+	s = strings.TrimPrefix(s, "!") // [@!phi+k]: the element written at offset k in an earlier iteration
 	if i := strings.LastIndexAny(s, "+-"); i > 0 {
 		return s[:i]
 	}
@@ -1098,7 +1104,14 @@ func (e *Effects) analyse(fn *ssa.Function) (res *Summary) {
 			for d := range cur {
 				nd := d
 				if len(retire) > 0 && mentions(d.w.Path, retire) {
-					continue
+					// the element written in this iteration stays dirty for the following ones, as
+					// "the element at this offset of an EARLIER iteration": distinct from the element at
+					// the same offset of the current iteration, possibly equal to anything else (another
+					// offset, a constant index, a scalar operand that points into the destination)
+					nd.w.Path = bangPath(d.w.Path, retire)
+					if nd.ident {
+						nd.src.Path = bangPath(d.src.Path, retire)
+					}
 				}
 				if len(widenNames) > 0 {
 					nd.w.Path = widen(d.w.Path, widenNames)
@@ -1567,4 +1580,20 @@ func lastStoreBefore(a *ssa.Alloc, load *ssa.UnOp) ssa.Value {
 		}
 	}
 	return nil
+}
+
+// bangPath marks the induction indices of the given counters as belonging to an earlier iteration.
+func bangPath(path string, names []string) string {
+	el := splitPath(path)
+	for i, x := range el {
+		if strings.HasPrefix(x, "[@") && !strings.HasPrefix(x, "[@!") {
+			p := symPhi(x)
+			for _, n := range names {
+				if n == p {
+					el[i] = "[@!" + x[2:]
+				}
+			}
+		}
+	}
+	return strings.Join(el, "")
 }
